@@ -135,12 +135,12 @@ def check(prop, tier, seed, only_sub=None, jobs=None):
     known_lines = []
     harness_errors = []
 
-    # 1. regression tier: committed minimal cases, replayed first
+    # 1. regression tier: committed minimal cases, replayed first (in parallel, fresh interpreters)
     regress_run = 0
-    for path, r in regress_cases(prop):
-        if only_sub and r["subcheck"] != only_sub:
-            continue
-        res = run_single_case(prop, r["subcheck"], r["case"], r.get("x64", True))
+    rcases = [(path, r) for path, r in regress_cases(prop) if not (only_sub and r["subcheck"] != only_sub)]
+    with ThreadPoolExecutor(max_workers=jobs) as ex:
+        rres = list(ex.map(lambda pr: run_single_case(prop, pr[1]["subcheck"], pr[1]["case"], pr[1].get("x64", True)), rcases))
+    for (path, r), res in zip(rcases, rres):
         regress_run += 1
         if "harness_error" in res:
             harness_errors.append(f"regress {path}: {res['harness_error']}")
